@@ -295,8 +295,17 @@ pub fn judge(case: &Case, acc: &mut Acc) {
     };
     match got {
         Ok(alg) => {
-            let fine = reference.is_ok() && correct.iter().any(|a| a.typ == alg);
-            if fine {
+            let fine_lenient = reference.is_ok() && correct.iter().any(|a| a.typ == alg);
+            // single faults of a buffer that was sealed correctly under every algorithm it carries:
+            // "after changing any byte up to and including the integrity attribute ... fails
+            // validation" — for a message sealed with both algorithms that covers both attributes,
+            // so a success is admissible only if no exposed integrity attribute was damaged
+            let faulted = matches!(tag, "bitflip" | "bytesub" | "pair");
+            let fine = fine_lenient && (!faulted || correct.len() == present.len());
+            if fine_lenient && !fine {
+                acc.outcome("VIOLATION: validates although an integrity attribute was corrupted");
+                viol!(acc, P, &format!("validates-with-corrupted-integrity-attribute/{tag}"), case, "validate_integrity succeeds although one of the integrity attributes of the sealed message was corrupted (only the other one is verified)", "parser rejection or a validation error", format!("Ok({alg:#06x}); reference: {} integrity attribute(s) exposed, {} still correct", present.len(), correct.len()));
+            } else if fine {
                 acc.outcome("validates (attribute present and correct per reference)");
             } else {
                 acc.outcome("VIOLATION: validates although not correctly sealed");
